@@ -129,6 +129,8 @@ pub fn c05_special(rep: &mut Rep) {
         "1,CONSUMO,CAL,EAMBIENTE,9,12\n2,CONSUMO,CAL,EAMBIENTE,5,5\n1,CONSUMO,ACS,EAMBIENTE,4,12\n1,PRODUCCION,EAMBIENTE,4,30\n2,PRODUCCION,EAMBIENTE,1,9\n3,CONSUMO,ILU,ELECTRICIDAD,1,1",
         "-1,CONSUMO,ACS,TERMOSOLAR,30\n0,CONSUMO,ACS,TERMOSOLAR,10\n-1,CONSUMO,CAL,TERMOSOLAR,30\n-1,PRODUCCION,TERMOSOLAR,25\n0,CONSUMO,CAL,TERMOSOLAR,2\n1,CONSUMO,ILU,ELECTRICIDAD,1",
         "DEMANDA,CAL,100,50,0\nDEMANDA,ACS,20,20,20\nDEMANDA,CAL,30,10,5\nDEMANDA,ACS,10,10,10\nDEMANDA,REF,0,0,7\n1,CONSUMO,CAL,GASNATURAL,150,70,6\n1,CONSUMO,ACS,GASNATURAL,35,35,35",
+        // free-text comments that contain words of the format itself (header words, tags, the metadata marker)
+        "1,CONSUMO,CAL,EAMBIENTE,9,12 # vector ambiente captado por la BdC\n1,CONSUMO,CAL,ELECTRICIDAD,3,4 # CONSUMO de la bomba, vector electricidad\n2,CONSUMO,ACS,TERMOSOLAR,5,0 # PRODUCCION solar, tipo vector\nDEMANDA,ACS,12,13 # demanda del vector ACS, #META no\n2,PRODUCCION,TERMOSOLAR,1,0 # vector,tipo,src_dst\n3,CONSUMO,ILU,ELECTRICIDAD,1,1 # DEMANDA, AUX, SALIDA",
         // declared production that carries the comment of the automatic completion (e.g. a file written out by the program and edited): surplus, no use, second line
         "1,CONSUMO,CAL,EAMBIENTE,100,50\n1,PRODUCCION,EAMBIENTE,120,80 # Equilibrado de consumo sin producción declarada\n2,PRODUCCION,EAMBIENTE,7,7 # Equilibrado de consumo sin producción declarada\n3,CONSUMO,ACS,TERMOSOLAR,10,10\n3,PRODUCCION,TERMOSOLAR,4,4 # Equilibrado de consumo sin producción declarada\n3,PRODUCCION,TERMOSOLAR,1,1\n4,CONSUMO,ILU,ELECTRICIDAD,1,1",
     ] {
@@ -502,6 +504,11 @@ pub fn c07(rep: &mut Rep, seed: u64) {
     for (clause, b) in [
         ("C08.aux_of_cogeneration_only_system", "1,CONSUMO,COGEN,GASNATURAL,100\n1,PRODUCCION,EL_COGEN,30\n1,AUX,5\n2,PRODUCCION,EL_INSITU,50\n3,CONSUMO,ILU,ELECTRICIDAD,10"),
         ("C08.special", "1,CONSUMO,COGEN,GASNATURAL,100\n1,CONSUMO,CAL,GASNATURAL,40\n1,SALIDA,CAL,30\n1,PRODUCCION,EL_COGEN,30\n1,AUX,5\n2,PRODUCCION,EL_INSITU,50\n3,CONSUMO,ILU,ELECTRICIDAD,10"),
+        // a cogeneration unit that also heats, its heating use declared as a line of zeros (only the output is known), auxiliaries, PV surplus
+        ("C08.special", "0,CONSUMO,ILU,ELECTRICIDAD,20\n1,CONSUMO,COGEN,GASNATURAL,100\n1,CONSUMO,CAL,GASNATURAL,0\n1,SALIDA,CAL,50\n1,AUX,5\n1,PRODUCCION,EL_COGEN,30\n2,PRODUCCION,EL_INSITU,100"),
+        // a declared but idle PV field next to a cogenerator that exports, and next to non-EPB uses
+        ("C08.special", "0,CONSUMO,ILU,ELECTRICIDAD,20\n1,PRODUCCION,EL_INSITU,0\n2,CONSUMO,COGEN,GASNATURAL,108\n2,PRODUCCION,EL_COGEN,48\n3,CONSUMO,CAL,GASNATURAL,150"),
+        ("C08.special", "0,CONSUMO,ILU,ELECTRICIDAD,20,20\n0,CONSUMO,NEPB,ELECTRICIDAD,5,5\n1,PRODUCCION,EL_INSITU,0,0\n2,CONSUMO,COGEN,GASNATURAL,108,108\n2,PRODUCCION,EL_COGEN,48,48"),
         ("C08.special", "1,CONSUMO,ACS,TERMOSOLAR,20\n1,CONSUMO,NEPB,TERMOSOLAR,10\n1,PRODUCCION,TERMOSOLAR,50\n2,CONSUMO,ILU,ELECTRICIDAD,10"),
         ("C08.special", "1,CONSUMO,NEPB,EAMBIENTE,10\n1,CONSUMO,CAL,EAMBIENTE,10\n1,CONSUMO,CAL,ELECTRICIDAD,5\n2,PRODUCCION,EAMBIENTE,40"),
         ("C08.special", "1,CONSUMO,CAL,ELECTRICIDAD,5\n1,PRODUCCION,EL_INSITU,50\n2,PRODUCCION,EL_COGEN,20\n2,CONSUMO,COGEN,BIOMASA,60"),
@@ -557,6 +564,24 @@ pub fn c07(rep: &mut Rep, seed: u64) {
         "ELECTRICIDAD, RED, SUMINISTRO, A, 0.4, 2.0, 0.3\nGASNATURAL, RED, SUMINISTRO, A, 0.0, 1.2, 0.25\nBIOMASA, RED, SUMINISTRO, B, 1.0, 0.1, 0.02\nRED1, INSITU, SUMINISTRO, A, 0.0, 1.3, 0.3"] {
         rep.evals += 1;
         if cte::wfactors_from_str(bad, UserWF { red1: None, red2: None }, cte::CTE_USERWF).is_ok() { rep.fail("C07.unusable_rejected", bad, "set with a carrier lacking its grid supply factor accepted".into()); }
+    }
+    // ---- factors whose three values are zero are factors like any other (a user who prices exported electricity at nothing, a carrier without emissions)
+    {
+        let text = "ELECTRICIDAD, RED, SUMINISTRO, A, 0.5, 2.0, 0.25\nELECTRICIDAD, INSITU, A_RED, B, 0, 0, 0\nELECTRICIDAD, INSITU, A_NEPB, A, 0.0, 0.0, 0.0\nGASNATURAL, RED, SUMINISTRO, A, 0, 1.25, 0.5\nBIOMASA, RED, SUMINISTRO, A, 0.000, 0.000, 0.000\nRED1, RED, SUMINISTRO, A, 0, 0, 0";
+        rep.evals += 1;
+        match cte::wfactors_from_str(text, UserWF { red1: None, red2: None }, cte::CTE_USERWF) {
+            Ok(w) => {
+                rep.nontrivial += 1;
+                for (key, want) in [("ELECTRICIDAD, INSITU, A_RED, B", [0.0f32, 0.0, 0.0]), ("ELECTRICIDAD, INSITU, A_NEPB, A", [0.0, 0.0, 0.0]), ("BIOMASA, RED, SUMINISTRO, A", [0.0, 0.0, 0.0]),
+                                    ("RED1, RED, SUMINISTRO, A", [0.0, 0.0, 0.0]), ("GASNATURAL, RED, SUMINISTRO, A", [0.0, 1.25, 0.5])] {
+                    match lookup(&w, key) {
+                        Some(got) => if !feq(got, want) { rep.fail("C07.user_values_kept", text, format!("factor '{}' supplied as {:?} reads {:?} after preparation", key, want, got)); },
+                        None => rep.fail("C07.user_values_kept", text, format!("supplied factor '{}' vanished", key)),
+                    }
+                }
+            }
+            Err(e) => rep.fail("C07.no_spurious_error", text, format!("usable set rejected: {}", e)),
+        }
     }
     // ---- the location pipeline, called several times in one process with different user values, defaults and tables:
     // every call answers for its own arguments (user value > table value > default for RED1 / RED2; the factors of the table it was given)
